@@ -17,7 +17,7 @@ TRUSTED_BASE = [
     "model prelude (lib/prelude.py): abstract scalar Sc / float constant Fl with a real-valued view -- machine arithmetic treated as mathematical (no rounding, overflow to inf, NaN)",
     "axioms on the uninterpreted real functions (ax_* in the prelude, admit()-ed): recip, sqrt, cbrt, sin^2+cos^2, cosh^2-sinh^2, powi/powf recursion, exp/ln, float-grid fact for |n-2|<eps",
     "first-derivative column of the derivative tables (lib/lemmas.py TABLES / validation lemmas) and the base definition of first-order dual numbers (lib/speclib.py)",
-    "extraction rewrite rules R1-R9 (tools/extract) and rustc's -Zunpretty=expanded output being the code that is compiled",
+    "extraction rewrite rules R1-R11 (tools/extract) and rustc's -Zunpretty=expanded output being the code that is compiled",
     "parametricity of the generic code in T (proved for T = abstract scalar; see DESIGN.md section 7)",
     "Verus 0.2026.09.13 / Z3 (bundled); smt.macro_finder=true for the non-linear lemma modules",
 ]
@@ -27,8 +27,8 @@ ALL_TYPES = pl.SCALAR_TYPES + pl.VECTOR_UNITS
 VERUS_PROPS = {
     "C01": dict(units=ALL_TYPES + ["Spec", "Dual__Dual"], thorough=["Dual__Dual__Dual"]),
     "C02": dict(units=ALL_TYPES + ["Derivative", "Dual__Dual"], thorough=["Dual__Dual__Dual"]),
-    "C03": dict(units=ALL_TYPES + ["Spec", "Dual__Dual"]),
-    "C04": dict(units=["Spec", "Dual", "Dual2", "HyperDual", "Dual__Dual"], thorough=["Dual3", "HyperHyperDual", "Dual__Dual__Dual"]),
+    "C03": dict(units=ALL_TYPES + ["Spec", "Derivative", "Dual__Dual"]),
+    "C04": dict(units=["Spec", "Dual", "Dual2", "HyperDual", "Dual__Dual", "Derivative"] + pl.VECTOR_UNITS, thorough=["Dual3", "HyperHyperDual", "Dual__Dual__Dual"]),
     "C06": dict(units=ALL_TYPES + ["F64"]),
     "C07": dict(units=pl.VECTOR_UNITS + ["Derivative"]),
     "C08": dict(units=ALL_TYPES),
@@ -36,7 +36,7 @@ VERUS_PROPS = {
     "C10": dict(units=ALL_TYPES + ["F64"]),
     "C11": dict(units=["Dual", "Dual2", "DualVec", "Dual2Vec"]),
     "C15": dict(units=ALL_TYPES + ["F64"]),
-    "C18": dict(units=ALL_TYPES, only_exec=True),
+    "C18": dict(units=ALL_TYPES + ["Derivative"], only_exec=True),
 }
 
 
@@ -288,13 +288,29 @@ def main(argv):
     if new_fail:
         os.makedirs(os.path.join(pl.GEN, "replay"), exist_ok=True)
         replay_path = os.path.join(pl.GEN, "replay", "%s_%d.txt" % (pid, int(time.time())))
+        # Verus gives no counterexample: look for a concrete input on which the real code disagrees with the numeric oracle
+        witness, note = None, ""
+        verus_failed = [(o.unit, o.kind, o.name) for o, _ in new_fail if o.unit != "kani"]
+        if verus_failed and os.environ.get("VERIF_NO_REPLAY") != "1":
+            try:
+                import replay as rp
+                witness, note = rp.find_witness(pl.REPO, verus_failed, int(os.environ.get("VERIF_SEED", "0") or 0))
+            except Exception as e:
+                witness, note = None, "replay machinery failed: %r" % (e,)
         with open(replay_path, "w") as f:
             f.write("property %s: failed obligations (Verus produces no counterexample model; Kani harnesses carry the concrete playback values)\n\n" % pid)
+            if witness:
+                f.write("FAILING INPUT replayed on the real code (binary /verif/replay built against %s):\n" % pl.REPO)
+                f.write("  type      : %s\n  operation : %s\n  operands  : %s   (parts in declaration order; None = absent part)\n  scalars   : %s\n" % (witness["type"], witness["function"], witness["operands"], witness["scalars"]))
+                f.write("  observed  : %s\n  expected  : %s   (independent truncated-Taylor oracle, lib/oracle.py)\n" % (witness["observed"], witness["expected"]))
+                f.write("  reproduce : echo '%s' | %s\n\n" % (rp.fmt_req(witness["type"], witness["function"], witness["operands"], witness["scalars"]), "<.cache/replay-target*/release/replay>"))
+            elif verus_failed:
+                f.write("no failing input found by the replay search: %s\n\n" % note)
             for o, _ in new_fail:
                 f.write("== obligation %s\n   what: %s\n   verifier output:\n%s\n" % (o.key(), o.what, o.detail))
         for o, _ in new_fail[:12]:
             print("FAILED-OBLIGATION property=%s %s :: %s" % (pid, o.key(), o.what))
-        if any(getattr(o, "has_cex", False) for o, _ in new_fail):
+        if witness or any(getattr(o, "has_cex", False) for o, _ in new_fail):
             print("VIOLATION property=%s replay=%s" % (pid, replay_path))
         else:
             print("VIOLATION property=%s replay=%s no-failing-input-found" % (pid, replay_path))
